@@ -227,6 +227,45 @@ func TestC06Enum(t *testing.T) {
 	}
 }
 
+// TestC06Long: histories with so many written batches that the footer itself becomes large (one row group per batch:
+// > 64 KiB from some 700 batches, > 1 MiB from some 12 000 on the 3-column fixture) - what a long-running appender produces.
+func TestC06Long(t *testing.T) {
+	sizes := []int{700, 13000}
+	if os.Getenv("VERIF_TIER") == "thorough" {
+		sizes = []int{700, 3000, 13000, 30000, 52000}
+	}
+	nsh, idx := envInt("VERIF_NSHARDS", 1), envInt("VERIF_SHARDIDX", 0)
+	seed := envInt("VERIF_SEED", 1)
+	for i, n := range sizes {
+		if i%nsh != idx {
+			continue
+		}
+		n += seed % 7
+		h := &History{Fixture: "tiny", PageSize: 1 + (seed+i)%3, Codec: (seed + i) % 3}
+		for k := 0; k < n; k++ {
+			h.Ops = append(h.Ops, tinyRec(k))
+			if k%97 == 5 {
+				h.Ops = append(h.Ops, tinyRec(k+1)) // now and then a batch of two records
+			}
+			h.Ops = append(h.Ops, nil)
+			if k%1000 == 999 {
+				h.Ops = append(h.Ops, nil) // and a Write with nothing pending
+			}
+		}
+		o := checkC06(h)
+		record("C06", fmt.Sprintf("long/%d/%d/%d", n, h.PageSize, h.Codec), true, []string{"long-history", fmt.Sprintf("batches=%d", n), "enum"}, func() interface{} {
+			return map[string]interface{}{"fixture": "tiny", "batches": n, "page_size": h.PageSize, "codec": fx.CodecNames[h.Codec], "word": "(A W) x n, every 97th batch AA W, every 1000th followed by an empty W"}
+		})
+		if o != nil {
+			if isKnown("C06", o.Key) {
+				continue
+			}
+			saveFail("C06", h, o)
+			t.Fatalf("C06 violated: %s", o.Error())
+		}
+	}
+}
+
 var c06Fixtures = []string{"tiny", "nest", "flat24"}
 
 func TestC06(t *testing.T) {
